@@ -2,5 +2,6 @@ package main
 
 // one blank import per property package
 import (
+	_ "polycheck/props/c01"
 	_ "polycheck/props/c16"
 )
